@@ -162,11 +162,51 @@ def cases(tier):
             yield ('listref', i, ctx)
     for i in range(len(UNINAME)):
         yield ('uniname', i)
+    for i in range(len(MARKER_LIKE)):
+        for ctx in ('argv', 'def', 'rich'):
+            yield ('marker-like', i, ctx)
+
+
+# words that only BEGIN like a marker: `<<WORD` whose WORD is more than marker characters, `:>` glued to more text
+MARKER_LIKE = ['<<EOF.txt', '<<EOF!', '<<EOF:x', '<<EOF@[S]@', ':>abc', ':>>', ':>:>', ':>EOF']
+
+
+def _marker_like(res, case):
+    """`<<EOF.txt` is not the here-document marker EOF followed by something that can be dropped; `:>abc` is not the marker `:>`.
+    Accepted readings: a syntax error at the instruction, or the word as one plain string - never a here-document ended by `EOF` / text that
+    swallows the following arguments."""
+    _, i, ctx = case
+    tok = MARKER_LIKE[i]
+    pre = "[setup]\ndef string S = '%s'\n" % SVAL
+    tail = 'line-two\nEOF\n' if tok.startswith('<<') else ''
+    if ctx == 'argv':
+        text = pre + 'run %% probe first %s next\n%s[act]\n' % (tok, tail)
+    elif ctx == 'rich':
+        # a position where here-documents and text-until-end-of-line ARE allowed (the word is alone on its line)
+        text = pre + 'def string X = %s\n%s' % (tok, tail) + 'run % probe first @[X]@ next\n[act]\n'
+    else:
+        text = pre + 'def list X = %s next\n%srun %% probe first @[X]@\n[act]\n' % (tok, tail)
+    o, calls = _run_case(text)
+    pc = [c for c in calls if c['name'] == 'probe']
+    got = pc[0]['args'][1:] if pc else None
+    den = tok.replace('@[S]@', SVAL)
+    res.n += 1
+    res.nontrivial += 1
+    res.outcomes[('marker-like', ctx, o.ident)] += 1
+    ok = (o.ident == 'SYNTAX_ERROR' and o.rc == 65 and not pc)
+    if not tail and o.ident == 'PASS' and got == ['first', den, 'next']:
+        ok = True
+    if not ok:
+        res.violation(case, ['%s: `%s next` followed by the lines `line-two` and `EOF`: the word is not a marker: expected a syntax error (or the plain word %r); got %s, probe arguments %r / %s' % (
+            ctx, tok, den, o.ident, got, ' / '.join(cli.stderr_lines(o.err)[-3:])[:300])], {'file': text})
 
 
 def run(case) -> Result:
     res = Result()
     k = case[0]
+    if k == 'marker-like':
+        _marker_like(res, case)
+        return res
     if k == 'str':
         _, ctx, fol, a, b = case
         for s_ in _T['strings'][a:b]:
